@@ -47,7 +47,7 @@ def m_range_incl_new(c, a, b):
     return Agg([a, b, BV(1, 0)], 'RangeInclusive')
 
 
-@model(r'^<(?:std::ops::)?Range(?:Inclusive)?<.*> as (?:std::iter::)?IntoIterator>::into_iter$|^<.*(?:Iter|IntoIter|Map|Filter|Enumerate|Zip|Rev|Chars|Skip|Take|Peekable|Cloned|Copied|Drain|Keys|Values|ValuesMut|IterMut|Chain|FilterMap|FlatMap|Flatten|SplitWhitespace|Split|SplitN|Lines)<.*> as (?:std::iter::)?IntoIterator>::into_iter$')
+@model(r'^<(?:std::ops::)?Range(?:Inclusive)?<.*> as (?:std::iter::)?IntoIterator>::into_iter$|^<.*(?<![A-Za-z])(?:Iter|IntoIter|Map|Filter|Enumerate|Zip|Rev|Chars|Skip|Take|Peekable|Cloned|Copied|Drain|Keys|Values|ValuesMut|IterMut|Chain|FilterMap|FlatMap|Flatten|SplitWhitespace|Split|SplitN|Lines)<.*> as (?:std::iter::)?IntoIterator>::into_iter$')
 def m_into_iter_identity(c, x):
     return x
 
@@ -275,6 +275,28 @@ def m_iter_collect(c, x):
 
 
 # ----------------------------------------------------------------------------- maps
+def sort_btree(ip, m):
+    """BTreeMap/BTreeSet iterate in key order: sort when all keys are concrete byte strings or integers."""
+    if not m.kind.startswith('btree'):
+        return
+    ks = []
+    for k, _ in m.entries:
+        if isinstance(k, BV) and k.concrete:
+            ks.append((0, k.v))
+        else:
+            try:
+                b = bytes_of(ip, k)
+            except Inconclusive:
+                b = None
+            if b is None:
+                if len(m.entries) > 1:
+                    ip.env.setdefault('assumptions', set()).add('BTreeMap with symbolic keys iterated in insertion order')
+                return
+            ks.append((1, b))
+    order = sorted(range(len(ks)), key=lambda i: ks[i])
+    m.entries[:] = [m.entries[i] for i in order]
+
+
 def key_eq(ip, a, b):
     return val_eq(ip, a, b)
 
@@ -394,11 +416,13 @@ def m_map_len(c, p):
 def m_map_iter(c, p):
     ip = c.ip
     m = mapobj(ip, p)
+    sort_btree(ip, m)
     return IterV([Agg([Ptr(Cell(k, 'mapkey'), ()), Ptr(cell, ())], 'tuple') for k, cell in m.entries])
 
 
 @model(r'^<' + MAPT + r'<.*> as (?:std::iter::)?IntoIterator>::into_iter$')
 def m_map_into_iter(c, m):
+    sort_btree(c.ip, m)
     return IterV([Agg([k, cell.val], 'tuple') for k, cell in m.entries])
 
 
@@ -406,6 +430,7 @@ def m_map_into_iter(c, m):
 def m_map_keys(c, p):
     ip = c.ip
     m = mapobj(ip, p)
+    sort_btree(ip, m)
     return IterV([Ptr(Cell(k, 'mapkey'), ()) for k, cell in m.entries])
 
 
@@ -413,6 +438,7 @@ def m_map_keys(c, p):
 def m_map_values(c, p):
     ip = c.ip
     m = mapobj(ip, p)
+    sort_btree(ip, m)
     return IterV([Ptr(cell, ()) for k, cell in m.entries])
 
 
